@@ -262,7 +262,7 @@ func TestProp_RunnerScripts(t *testing.T) {
 
 // runStopVsDispatch scripts Stop against a tick that is due: the dispatch is parked just before
 // the function is called, Stop is called, and only then the dispatch is released.
-func runStopVsDispatch(freqMs, fnUs, nth int) (msg string, reached bool) {
+func runStopVsDispatch(freqMs, fnUs, nth int, cancelParentFirst bool) (msg string, reached bool) {
 	g := vlib.NewGate("raterun.before_dispatch", int32(nth), 2*time.Second)
 	remove := vlib.InstallGates(nil, g)
 	defer remove()
@@ -284,7 +284,9 @@ func runStopVsDispatch(freqMs, fnUs, nth int) (msg string, reached bool) {
 	if err != nil {
 		return "VERIF-INFRA " + err.Error(), false
 	}
-	r.Start(context.Background())
+	ctx, cancelParent := context.WithCancel(context.Background())
+	defer cancelParent()
+	r.Start(ctx)
 	select {
 	case <-g.Arrived():
 		reached = true
@@ -292,6 +294,9 @@ func runStopVsDispatch(freqMs, fnUs, nth int) (msg string, reached bool) {
 	}
 	stopReturned := make(chan struct{})
 	go func() {
+		if cancelParentFirst {
+			cancelParent() // the run was interrupted: Stop must wait for the runner all the same
+		}
 		r.Stop()
 		stopped.Store(true)
 		close(stopReturned)
@@ -317,12 +322,16 @@ func TestProp_ScriptedStopVsDispatch(t *testing.T) {
 		freq := rapid.IntRange(3, 40).Draw(rt, "freqMs")
 		fnUs := rapid.SampledFrom([]int{0, 500, 5000, 20000}).Draw(rt, "fnMicros")
 		nth := rapid.IntRange(1, 3).Draw(rt, "nthDispatch")
-		msg, reached := runStopVsDispatch(freq, fnUs, nth)
+		cancelFirst := rapid.Bool().Draw(rt, "parentCancelledBeforeStop")
+		msg, reached := runStopVsDispatch(freq, fnUs, nth, cancelFirst)
 		cls := []string{}
 		if reached {
 			cls = append(cls, "gate-reached")
 		}
-		stats.Case("scripted-stop", fmt.Sprint(freq, fnUs, nth), reached, cls, func() any {
+		if cancelFirst {
+			cls = append(cls, "parent-cancelled-before-stop")
+		}
+		stats.Case("scripted-stop", fmt.Sprint(freq, fnUs, nth, cancelFirst), reached, cls, func() any {
 			return map[string]any{"script": "Stop while a due tick is parked before dispatch", "every_ms": freq, "fn_us": fnUs, "parked_dispatch": nth}
 		})
 		if msg != "" {
@@ -332,7 +341,7 @@ func TestProp_ScriptedStopVsDispatch(t *testing.T) {
 }
 
 func TestRegress(t *testing.T) {
-	if msg, reached := runStopVsDispatch(10, 5000, 1); msg != "" && reached {
+	if msg, reached := runStopVsDispatch(10, 5000, 1, false); msg != "" && reached {
 		t.Errorf("VERIF-VIOLATION C18: %s", msg)
 	}
 }
